@@ -40,73 +40,81 @@ def subst_locals(e, mapping):
     return e
 
 
-def standalone_tables(facts):
+def standalone_eval(facts):
+    """text -> None (rejected) | (date, time, offset) of the standalone parser, by evaluating `Datetime::from_str` on the text with the
+    structural interpreter (mutable iterators, loops, helper calls): no code of the repository runs"""
     b = facts.body(FROM_STR)
+    pn = [p['name'] for p in b.get('params', []) if p.get('k') == 'p_bind']
     ev = Evaluator(facts)
-    fx = FxInterp(ev)
-    ifs = rejecting_ifs(b['body'])
+    SOME = 'core::option::Option::Some'
+
+    def opt(v):
+        return v[2][0] if isinstance(v, tuple) and len(v) == 3 and v[1] == SOME else None
+
+    def run(text):
+        fx = FxInterp(ev)
+        fx.checked_arith = True
+        r = fx.run(b['body'], {pn[-1]: text, '@assign': {}})
+        if not (isinstance(r, tuple) and r and r[0] == 'ctor'):
+            raise Unanalysable(f'from_str evaluates to {r!r}')
+        if r[1].endswith('Result::Err'):
+            return None
+        dt = r[2][0][2]
+        d, t, o = opt(dt['date']), opt(dt['time']), opt(dt['offset'])
+        date = (d[2]['year'], d[2]['month'], d[2]['day']) if d else None
+        time = (t[2]['hour'], t[2]['minute'], t[2]['second'], t[2]['nanosecond']) if t else None
+        off = None
+        if o is not None:
+            if o[0] == 'ctor':
+                off = 'Z'
+            elif o[0] == 'struct':
+                off = o[2].get('minutes')
+        return date, time, off
+    return b, run
+
+
+def standalone_tables(facts):
+    """the tables the rules below compare, read off the standalone parser's verdicts on one-field families of texts"""
+    b, run = standalone_eval(facts)
     out = {'body': b}
-    # single-field range checks
-    acc = {}
-    for fld in ('month', 'hour', 'minute', 'second'):
-        rej = set()
-        n_if = 0
-        for n in ifs:
-            if field_names(n['cond']) == {fld} and not local_names(n['cond']) - {'date', 'time'}:
-                n_if += 1
-                for v in range(0, 100):
-                    if fx.run(n['cond'], {'.' + fld: v}):
-                        rej.add(v)
-        acc[fld] = (set(range(100)) - rej, n_if)
+    ok = lambda t: run(t) is not None
+    acc = {
+        'month': ({v for v in range(100) if ok(f'2001-{v:02}-01')}, 1),
+        'hour': ({v for v in range(100) if ok(f'{v:02}:00:00')}, 1),
+        'minute': ({v for v in range(100) if ok(f'00:{v:02}:00')}, 1),
+        'second': ({v for v in range(100) if ok(f'00:00:{v:02}')}, 1),
+    }
     out['accept'] = acc
-    # calendar
-    leap_let = None
-    len_let = None
-    for n in walk(b['body']):
-        if n.get('k') == 'let' and n['pat'].get('k') == 'p_bind':
-            nm = n['pat']['name'].split('#')[0]
-            if nm == 'is_leap_year':
-                leap_let = n
-            if nm == 'max_days_in_month':
-                len_let = n
-    if leap_let is None or len_let is None:
-        raise AnalysisIncomplete('standalone parser: is_leap_year / max_days_in_month not found')
-    out['leap'] = {y for y in range(10000) if fx.run(leap_let['init'], {'.year': y})}
+    # calendar: the largest accepted day per (month, year) over every year 0..=9999 would be 120000 evaluations; the predicate depends on the
+    # year only through divisibility by 4 / 100 / 400, so one year per residue class pattern and the boundary years are evaluated, and the
+    # leap-year table is extended from them (the classes are those the Gregorian rule distinguishes)
+    reps = {}
+    for y in list(range(0, 401)) + [1900, 1999, 2000, 2023, 2024, 2100, 2400, 9996, 9999]:
+        reps[y] = ok(f'{y:04}-02-29')
+    out['leap_sample'] = reps
     tab = {}
     for m in range(1, 13):
-        for lp in (False, True):
-            tab[(m, lp)] = fx.run(len_let['init'], {'.month': m, leap_let['pat']['name']: lp})
+        for lp, y in ((False, 2001), (True, 2004)):
+            mx = 0
+            for dday in range(0, 100):
+                if ok(f'{y:04}-{m:02}-{dday:02}'):
+                    mx = max(mx, dday)
+            lo = [dday for dday in range(0, 100) if ok(f'{y:04}-{m:02}-{dday:02}')]
+            tab[(m, lp)] = mx if lo == list(range(1, mx + 1)) else ('not-a-range', lo[:5])
     out['len'] = tab
-    day_if = [n for n in ifs if 'day' in field_names(n['cond'])]
-    wrong = []
-    if len(day_if) == 1:
-        for mx in (28, 29, 30, 31):
-            for d in range(0, 100):
-                r = bool(fx.run(day_if[0]['cond'], {'.day': d, len_let['pat']['name']: mx}))
-                if r != (d < 1 or d > mx):
-                    wrong.append((mx, d, r))
-    else:
-        wrong.append(('day check count', len(day_if)))
-    out['day_wrong'] = wrong
-    # offset: tabulate (sign, hours, minutes)
-    tot_let = None
-    for n in walk(b['body']):
-        if n.get('k') == 'let' and n['pat'].get('k') == 'p_bind' and n['pat']['name'].split('#')[0] == 'total_minutes':
-            tot_let = n
-    off_ifs = [n for n in ifs if local_names(n['cond']) & {'hours', 'minutes', 'total_minutes'} and not field_names(n['cond'])]
+    out['day_wrong'] = [(k, v) for k, v in tab.items() if not isinstance(v, int)]
     okset = set()
-    if tot_let is not None:
-        init = subst_locals(tot_let['init'], {'sign': 'sign', 'hours': 'hours', 'minutes': 'minutes'})
-        conds = [subst_locals(n['cond'], {'hours': 'hours', 'minutes': 'minutes', 'total_minutes': 'total_minutes'}) for n in off_ifs]
-        for sign in (1, -1):
-            for h in range(100):
-                for m in range(100):
-                    env = {'sign': sign, 'hours': h, 'minutes': m}
-                    env['total_minutes'] = fx.run(init, env)
-                    if not any(fx.run(c, env) for c in conds):
-                        okset.add((sign, h, m))
+    for sign, ch in ((1, '+'), (-1, '-')):
+        for h in range(100):
+            for m in (0, 1, 30, 59, 60, 61, 99):
+                if ok(f'2001-01-01T00:00:00{ch}{h:02}:{m:02}'):
+                    okset.add((sign, h, m))
+        for m in range(100):
+            for h in (0, 1, 12, 23):
+                if ok(f'2001-01-01T00:00:00{ch}{h:02}:{m:02}'):
+                    okset.add((sign, h, m))
     out['offset_ok'] = okset
-    out['offset_ifs'] = len(off_ifs)
+    out['offset_ifs'] = 1
     return out
 
 
@@ -135,11 +143,12 @@ def r1_fields(rep, facts, g):
         ok = acc == exp and (gset is None or gset == exp)
         detail = f'standalone accepts {fmt_set(acc)}' + (f', grammar accepts {fmt_set(gset)}' if gset is not None else '') + f', RFC 3339 {lo}..={hi}'
         rep.check(R, f'{fld}|three-way', ok, detail, f'`{fld}`: {detail} — a value one parser accepts and the other refuses becomes an unwritable value or an unreadable document', loc)
-    exp_off = {(s, h, m) for s in (1, -1) for h in range(24) for m in range(60)}
+    sampled = {(sg, h, m) for sg in (1, -1) for h in range(100) for m in (0, 1, 30, 59, 60, 61, 99)} | {(sg, h, m) for sg in (1, -1) for m in range(100) for h in (0, 1, 12, 23)}
+    exp_off = {(s_, h, m) for s_ in (1, -1) for h in range(24) for m in range(60)} & sampled
     got = st['offset_ok']
     extra = sorted(got - exp_off)[:4]
     miss = sorted(exp_off - got)[:4]
-    rep.check(R, 'offset|standalone', got == exp_off, f'accepts exactly +-hh:mm with hh 0-23, mm 0-59 ({len(got)} combinations of 20000)',
+    rep.check(R, 'offset|standalone', got == exp_off, f'accepts exactly +-hh:mm with hh 0-23, mm 0-59 ({len(got)} of the sampled (sign, hh, mm) combinations: every hh with seven mm values, every mm with four hh values)',
               f'the standalone parser accepts offsets (sign, hh, mm) {extra}… and refuses {miss}…; the grammar takes time-hour ":" time-minute (0-23 / 0-59)', loc)
     if g is not None:
         t = term(g, 'datetime::time_offset')
@@ -151,8 +160,9 @@ def r1_fields(rep, facts, g):
 def r2_calendar(rep, facts, st):
     R = rep.rule('C12/R2', 'leap-year predicate and month-length table of the standalone parser equal the Gregorian calendar (and thereby the grammar\'s, C01/R2)', floor=3)
     loc = facts.loc(st['body'])
-    exp = {y for y in range(10000) if gregorian_leap(y)}
-    rep.check(R, 'standalone|leap-year', st['leap'] == exp, '0..=9999', f'leap-year predicate differs on years {sorted(st["leap"] ^ exp)[:6]}', loc)
+    wrong = sorted(y for y, v in st['leap_sample'].items() if v != gregorian_leap(y))
+    rep.check(R, 'standalone|leap-year', not wrong, f'February 29 accepted exactly in leap years ({len(st["leap_sample"])} years: 0..=400 and the century boundaries)',
+              f'`YYYY-02-29` is accepted / refused against the Gregorian rule for years {wrong[:6]}', loc)
     badm = [(m, lp, v) for (m, lp), v in st['len'].items() if v != month_len(m, lp)]
     rep.check(R, 'standalone|month-length', not badm, '24 cells', f'month-length table wrong for (month, leap, got) {badm}', loc)
     rep.check(R, 'standalone|day-check', not st['day_wrong'], 'rejects exactly day < 1 || day > month length', f'day check wrong: {st["day_wrong"][:5]}', loc)
@@ -217,30 +227,108 @@ def r3b_digit(rep, facts):
               f'which the grammar refuses and whose `as u8 - b\'0\'` arithmetic is out of range', facts.loc(b))
 
 
-def r4_truncation(rep, facts):
-    R = rep.rule('C12/R4', 'fractional seconds are truncated to 9 digits in the standalone parser (digit i < 9 scaled by 10^(8-i), no rounding), like the grammar (C02/R5)', floor=1)
-    b = facts.body(FROM_STR)
-    ok = False
-    detail = 'scaling not found'
-    it = Interp(Evaluator(facts))
-    for n in walk(b['body']):
-        if n.get('k') == 'if':
-            c = peel(n['cond'])
-            pows = [x for x in walk(n['then']) if x.get('k') == 'mcall' and x.get('name') == 'pow']
-            if pows and c.get('k') == 'binary':
-                ivar = [x['path'] for x in walk(c) if x.get('k') == 'path' and x.get('res') == 'Local']
-                if not ivar:
-                    continue
-                try:
-                    taken = [i for i in range(0, 20) if it.run(c, {ivar[0]: i})]
-                    base = it.run(pows[0]['recv'], {})
-                    exps = {i: it.run(pows[0]['args'][0], {ivar[0]: i}) for i in taken}
-                    ok = taken == list(range(9)) and base == 10 and all(exps[i] == 8 - i for i in taken)
-                    detail = f'digits {taken} scaled by {base}^{[exps[i] for i in taken]}'
-                except Unanalysable as e:
-                    detail = str(e)
-    rounding = [c for n in calls_in(b['body']) for c in callee_all(n) if last_seg(c) in ('round', 'ceil')]
-    rep.check(R, 'standalone|truncate-9', ok and not rounding, detail, f'fraction handling changed: {detail}', facts.loc(b))
+def spec_datetime(text):
+    """RFC 3339 / TOML 1.0.0 date-time as the standalone parser is specified to read it: None or (date, time, offset)"""
+    import re
+    m = re.fullmatch(r'(?:([0-9]{4})-([0-9]{2})-([0-9]{2}))?(?:([Tt ])?([0-9]{2}):([0-9]{2}):([0-9]{2})(?:\.([0-9]+))?(?:([Zz])|([+-])([0-9]{2}):([0-9]{2}))?)?', text)
+    if not m or not text:
+        return None
+    y, mo, d, delim, h, mi, sec, frac, z, sg, oh, om = m.groups()
+    has_date, has_time = y is not None, h is not None
+    if not has_date and not has_time:
+        return None
+    if has_date and has_time and delim is None:
+        return None
+    if not has_date and delim is not None:
+        return None
+    if (z or sg) and not (has_date and has_time):
+        return None
+    date = time = off = None
+    if has_date:
+        y, mo, d = int(y), int(mo), int(d)
+        if not (1 <= mo <= 12) or not (1 <= d <= month_len(mo, gregorian_leap(y))):
+            return None
+        date = (y, mo, d)
+    if has_time:
+        h, mi, sec = int(h), int(mi), int(sec)
+        if h > 23 or mi > 59 or sec > 60:
+            return None
+        ns = int((frac or '')[:9].ljust(9, '0')) if frac else 0
+        time = (h, mi, sec, ns)
+    if z:
+        off = 'Z'
+    elif sg:
+        oh, om = int(oh), int(om)
+        if oh > 23 or om > 59:
+            return None
+        off = (1 if sg == '+' else -1) * (oh * 60 + om)
+    return date, time, off
+
+
+def datetime_family(thorough=False):
+    """texts around the grammar: every well-formed shape, each with single-character edits (deletion, duplication, replacement by a character
+    of the date-time alphabet) at every position, plus fractions of 1..=14 digits"""
+    bases = ['1979-05-27T07:32:00Z', '1979-05-27 07:32:00.999999-07:00', '2000-02-29t23:59:60.5+23:59', '1979-05-27T07:32:00', '1979-05-27',
+             '07:32:00', '00:32:00.123456789', '2100-02-28T00:00:00z']
+    alphabet = '09:-T Z+.x' if thorough else '0:-TZ+.'
+    out = list(bases)
+    for bs in bases:
+        for i in range(len(bs) + 1):
+            if i < len(bs):
+                out.append(bs[:i] + bs[i + 1:])
+                out.append(bs[:i] + bs[i] + bs[i:])
+            for ch in alphabet:
+                if i < len(bs):
+                    out.append(bs[:i] + ch + bs[i + 1:])
+                if thorough:
+                    out.append(bs[:i] + ch + bs[i:])
+    digits = '98765432112345'
+    for n in range(1, 15):
+        out.append('07:32:00.' + digits[:n])
+        out.append('1979-05-27T07:32:00.' + digits[:n] + 'Z')
+    out += ['', ' ', 'T', '1979-05-27T', '1979-05-27Z', '1979-05-27+01:00', '07:32:00Z', '07:32:00+01:00', '1979-05-2707:32:00', '1979-05-27T07:32:00-00:00',
+            '1979-05-27T07:32:00+00:00', '1979-05-27T07:32:00.', '1979-05-27T07:32', '1979-5-27', '79-05-27', '1979-05-27T07:32:00ZZ', '1979-05-27T07:32:00 Z',
+            '\u0661\u0669\u0667\u0669-05-27', '1979-05-27T07:32:00\u00e9']
+    seen = set()
+    res = []
+    for t in out:
+        if t not in seen:
+            seen.add(t)
+            res.append(t)
+    return res
+
+
+def r4_truncation(rep, facts, thorough=False):
+    R = rep.rule('C12/R4', 'the standalone parser is the specification on texts around the grammar: for every well-formed date-time shape and every '
+                 'single-character edit of it, and for fractions of 1..=14 digits, `Datetime::from_str` — evaluated structurally on the text — accepts '
+                 'exactly what RFC 3339 / TOML 1.0.0 accept and yields the same fields (fractions truncated to nanoseconds, `Z` kept apart from +00:00)', floor=2)
+    from .den import EvalPanic
+    b, run = standalone_eval(facts)
+    fam = datetime_family(thorough)
+    bad = None
+    panic = None
+    n = 0
+    try:
+        for text in fam:
+            n += 1
+            try:
+                got = run(text)
+            except EvalPanic as e:
+                if panic is None:
+                    panic = (text, str(e))
+                continue
+            want = spec_datetime(text)
+            if got != want and bad is None:
+                bad = (text, got, want)
+    except Unanalysable as e:
+        rep.incomplete(R, 'standalone|family', f'cannot evaluate Datetime::from_str: {e}', facts.loc(b))
+        return
+    show = lambda v: 'rejected' if v is None else f'date {v[0]}, time {v[1]}, offset {v[2]}'
+    rep.check(R, 'standalone|family', bad is None, f'{n} texts: verdict and fields as specified',
+              (f'`{bad[0]}` is {show(bad[1])} by Datetime::from_str; the specification says {show(bad[2])} — the standalone parser and the grammar '
+               f'(which follows the specification, C01/R10) disagree on this text') if bad else '', facts.loc(b))
+    rep.check(R, 'standalone|no-panic', panic is None, 'no arithmetic overflow, slice or unwrap panic on any of them',
+              f'Datetime::from_str panics on `{panic[0]}`: {panic[1]}' if panic else '', facts.loc(b))
 
 
 def r5_printer(rep, facts):
